@@ -98,6 +98,16 @@ def run(prop, tier, replay_path=None):
             r["src"] = path
             r["classes"], r["layouts"] = classes, layouts
             results.append(r)
+        if tier == "quick" and prop == "C05":
+            # 40-row tables: more than one sort run per partition, limits around half the partition length
+            path2, j2, _ = emit(family, 40, prop)
+            jobs.append(j2)
+            cl2, la2 = [sd % NCLASSES, (sd + 3) % NCLASSES], [1, 5]
+            for r in run_family(path2, "%s_%s_40" % (prop, family), cl2, la2):
+                r["family"] = family
+                r["src"] = path2
+                r["classes"], r["layouts"] = cl2, la2
+                results.append(r)
         if tier != "quick":
             # longer tables: dictionary encodings, several streaming batches, top-n vs sort switch
             path2, j2, _ = emit(family, 40, prop)
